@@ -24,7 +24,9 @@ RULE = ("seeded random cases: group_by / group_by_until / partition with key fun
         "routing, expiry, terminals and escapes; group life cycles over a hot source (outer subscription ended early by take(m) / "
         "dispose / dispose from inside a group subscriber's first on_next, group subscribers arriving late and leaving early, "
         "groups backed by Subject / ReplaySubject / BehaviorSubject): the source stays subscribed exactly while the outer or any "
-        "group subscription is alive and every group subscriber gets what its kind of subject owes it. non-trivial = the operator was offered >= 1 element; distinct = digest of "
+        "group subscription is alive and every group subscriber gets what its kind of subject owes it; a group subscriber that answers the "
+        "completion of its (expired) group by pushing further elements of the same or another key into a Subject source from inside that callback "
+        "(conservation per key: what was pushed for a key is the concatenation of what the successive groups of that key received). non-trivial = the operator was offered >= 1 element; distinct = digest of "
         "(operator, parameters, timelines)")
 ASSUMPTIONS = ["TestScheduler / HistoricalScheduler are the clocks (ordering checked by C28)",
                "probe sources and probe observers are harness code (conforming)",
@@ -43,6 +45,8 @@ REQUIRED = {"set:ops": 3, "set:keys": 7, "derived_duration_elements": {"quick": 
             "source_error_with_2_or_more_open_groups": {"quick": 30, "thorough": 600},
             "partition_elements_checked": {"quick": 500, "thorough": 10000},
             "lifecycle_cases": {"quick": 800, "thorough": 100000},
+            "requeue_cases": {"quick": 1000, "thorough": 150000}, "requeued_elements": {"quick": 800, "thorough": 100000},
+            "requeue_groups_reborn": {"quick": 500, "thorough": 50000},
             "lifecycle_source_held_by_a_group_subscriber_after_outer_ended": {"quick": 300, "thorough": 30000},
             "lifecycle_groups_subscribed_after_outer_ended": {"quick": 200, "thorough": 20000}}
 STEPS = (0, 5, 5, 10, 10, 15, 1, 4, 6, 20)
@@ -589,6 +593,113 @@ def lifecycle_case(seed: int, idx: int, res: UnitResult) -> None:
         res.violation("C19:group_by:lifecycle:%s" % problem[0], problem[1], {"seed": seed, "idx": idx, "family": "lifecycle"})
 
 
+def requeue_case(seed: int, idx: int, res: UnitResult) -> None:
+    """group_by_until over a Subject source, groups expiring after their m-th element (duration derived from the group); a group
+    subscriber reacts to the COMPLETION of its group by pushing further elements (same key / other key) into the source from
+    inside that callback. Conservation per key: the elements pushed for a key are exactly the concatenation, in push order, of
+    what the successive groups of that key received; a key seen again after its group expired starts a new group."""
+    from reactivex.subject import Subject
+    from ..vlab import SrcErr
+    r = case_rng(seed, ID, "requeue", idx)
+    m = r.randint(1, 3)
+    nkeys = r.randint(1, 3)
+    base = [r.randint(0, 11) for _ in range(r.randint(2, 8))]
+    plan = [r.choice([None, "same", "same", "other"]) for _ in range(12)]
+    budget = [r.randint(1, 4)]
+    term = r.choice(["C", "C", "E", None])
+    keyf = lambda v: v % nkeys  # noqa: E731
+    source: Any = Subject()
+    pushed: list = []
+    groups: list = []
+    top_events: list = []
+    escaped: list = []
+    state = {"terminating": False, "fresh": 0, "requeued": 0}
+
+    def push(v: int) -> None:
+        pushed.append(v)
+        try:
+            source.on_next(v)
+        except Exception as e:  # noqa: BLE001
+            escaped.append(repr(e))
+
+    def on_group(g: Any) -> None:
+        rec: list = [g.key, []]
+        groups.append(rec)
+        top_events.append("N")
+
+        def done() -> None:
+            rec[1].append(("C", None))
+            if state["terminating"] or budget[0] <= 0 or not plan:
+                return
+            d = plan.pop(0)
+            if d is None:
+                return
+            budget[0] -= 1
+            state["fresh"] += 1
+            state["requeued"] += 1
+            key = g.key if d == "same" else (g.key + 1) % nkeys
+            push(key + nkeys * (100 + state["fresh"]))
+        g.subscribe(on_next=lambda v: rec[1].append(("N", v)), on_error=lambda e: rec[1].append(("E", e)), on_completed=done)
+
+    o = source.pipe(ops.group_by_until(keyf, None, lambda g: g.pipe(ops.skip(m - 1))))
+    sub = o.subscribe(on_next=on_group, on_error=lambda e: top_events.append("E"), on_completed=lambda: top_events.append("C"))
+    for v in base:
+        push(v)
+    state["terminating"] = True
+    if term == "C":
+        source.on_completed()
+    elif term == "E":
+        source.on_error(SrcErr("requeue"))
+    sub.dispose()
+    desc = {"family": "requeue-on-group-completion", "expire_after": m, "keys": nkeys, "base": base, "terminal": term}
+    res.case(key=desc, nontrivial=state["requeued"] > 0,
+             sample={"case": desc, "pushed": pushed, "groups": [[k, show(tr)] for k, tr in groups]} if idx % 60 == 2 else None)
+    res.count("requeue_cases")
+    res.count("requeued_elements", state["requeued"])
+    problem = None
+    per_key: dict = {}
+    for v in pushed:
+        per_key.setdefault(keyf(v), []).append(v)
+    got: dict = {}
+    for k, tr in groups:
+        got.setdefault(k, []).extend(v for (kind, v) in tr if kind == "N")
+    for key, exp in per_key.items():
+        g_ = got.get(key, [])
+        if g_ != exp:
+            lost = [v for v in exp if v not in g_]
+            what = "element-lost" if lost else ("element-duplicated" if len(g_) > len(exp) else "order")
+            problem = ("C19:group_by_until:requeue:%s" % what, {"key": key, "pushed_for_key": exp, "delivered_to_groups_of_key": g_})
+            break
+    if problem is None:
+        for k, tr in groups:
+            n_el = sum(1 for (kind, v) in tr if kind == "N")
+            if any(keyf(v) != k for (kind, v) in tr if kind == "N"):
+                problem = ("C19:group_by_until:requeue:element-on-group-of-other-key", {"group": k})
+            elif n_el > m:
+                problem = ("C19:group_by_until:requeue:group-outlived-its-duration", {"group": k, "elements": n_el})
+            elif n_el == m and (len(tr) != m + 1 or tr[-1][0] != "C"):
+                problem = ("C19:group_by_until:requeue:expired-group-not-completed", {"group": k, "trace": show(tr)})
+            elif term is not None and (not tr or tr[-1][0] not in "EC"):
+                problem = ("C19:group_by_until:requeue:group-left-open-after-source-terminal", {"group": k})
+            elif term is not None and n_el < m and tr[-1][0] != term:
+                problem = ("C19:group_by_until:requeue:open-group-ended-with-other-kind", {"group": k, "trace": show(tr)})
+            if problem:
+                break
+    if problem is None and escaped:
+        problem = ("C19:group_by_until:requeue:exception-escaped-into-the-source", {"escaped": escaped[:3]})
+    if problem is None and term is not None and (not top_events or top_events[-1] != term or top_events.count("C") + top_events.count("E") != 1):
+        problem = ("C19:group_by_until:requeue:subscriber-not-terminated-with-the-source", {"top": "".join(top_events), "terminal": term})
+    if problem is None and len(groups) != top_events.count("N"):
+        problem = ("C19:group_by_until:requeue:groups", {"groups": len(groups)})
+    rebirths = sum(max(0, sum(1 for k, _ in groups if k == key) - 1) for key in per_key)
+    res.count("requeue_groups_reborn", rebirths)
+    if problem:
+        problem[1]["case"] = desc
+        problem[1]["pushed"] = pushed
+        problem[1]["groups"] = [[k, show(tr)] for k, tr in groups]
+        res.violation(problem[0], problem[1], {"seed": seed, "idx": idx, "family": "requeue"})
+
+
 def run_unit(unit: dict, res: UnitResult) -> None:
     for idx in range(unit["lo"], unit["hi"]):
         run_case(unit["seed"], idx, res)
@@ -596,6 +707,8 @@ def run_unit(unit: dict, res: UnitResult) -> None:
             derived_duration_case(unit["seed"], idx, res)
         if idx % 4 == 1:
             lifecycle_case(unit["seed"], idx, res)
+        if idx % 3 == 2:
+            requeue_case(unit["seed"], idx, res)
 
 
 def replay(rep: dict, res: UnitResult) -> None:
@@ -604,5 +717,8 @@ def replay(rep: dict, res: UnitResult) -> None:
         return
     if rep.get("family") == "lifecycle":
         lifecycle_case(rep["seed"], rep["idx"], res)
+        return
+    if rep.get("family") == "requeue":
+        requeue_case(rep["seed"], rep["idx"], res)
         return
     run_case(rep["seed"], rep["idx"], res)
